@@ -129,6 +129,15 @@ class _P:
         return ("ctor", name, tuple(fields))
 
 
+def stable_key(x):
+    """a sort key that does not depend on the iteration order of sets (two equal frozensets can print their elements in different orders)"""
+    if isinstance(x, (frozenset, set)):
+        return "{" + ",".join(sorted(stable_key(e) for e in x)) + "}"
+    if isinstance(x, tuple):
+        return "(" + ",".join(stable_key(e) for e in x) + ")"
+    return repr(x)
+
+
 # ------------------------------------------------------------------ subjects
 TRANSPARENT = {"Result::as_ref", "Option::as_ref", "Clone::clone", "Option::as_deref", "Result::as_deref", "Option::as_mut", "Result::as_mut",
                "Borrow::borrow", "AsRef::as_ref", "Deref::deref", "ToOwned::to_owned", "Option::cloned", "Option::copied"}
@@ -300,7 +309,7 @@ def cond_tests(c, pol):
                 return [] if r is False else [("not", tuple(r))]
         if c[0] == "bin" and c[1] in ("Eq", "Ne"):
             # comparison of two opaque values: one spelling (== with ordered operands)
-            a, b = sorted((norm(strip_acc(c[2])), norm(strip_acc(c[3]))), key=repr)
+            a, b = sorted((norm(strip_acc(c[2])), norm(strip_acc(c[3]))), key=stable_key)
             return [("cond", ("bin", "Eq", a, b), pol if c[1] == "Eq" else not pol)]
         if c[0] == "bin" and c[1] in ("And", "BitAnd") and pol:
             a, b = cond_tests(c[2], True), cond_tests(c[3], True)
@@ -875,7 +884,7 @@ def same_decision(lv1, lv2, value=lambda v: v):
         for ts, _ in lv:
             for t in ts:
                 test_atoms(t, atoms)
-    atoms.sort(key=repr)
+    atoms.sort(key=stable_key)
     t1, t2 = decision_table(lv1, atoms, value), decision_table(lv2, atoms, value)
     for bits in t1:
         if t1[bits] != t2[bits]:
